@@ -250,7 +250,7 @@ def _worker_main(conn):
 
 class Pool(object):
     def __init__(self, nproc):
-        self.ctx = mp.get_context('fork')
+        self.ctx = mp.get_context(os.environ.get('VERIF_MP', 'spawn'))
         self.nproc = nproc
         self.workers = []
 
@@ -506,7 +506,10 @@ def main(argv=None):
                 if alt:
                     c = alt[0]
             if not c['reproduced']:
-                if c['kind'] == 'raises':
+                if c['kind'] == 'taint':
+                    inconclusive.append('%s: previous-contents dependency for %r not reproduced with NaN-filled '
+                                        'contents (%s)' % (cid, c['label'], c['conc_detail'][:120]))
+                elif c['kind'] == 'raises':
                     inconclusive.append('%s: symbolic run raised %s (not reproduced concretely: engine gap) %s'
                                         % (cid, c['detail'], c.get('tb', '')[-300:] if a.verbose else ''))
                 else:
